@@ -722,11 +722,13 @@ class Grammar(Model):
         directives = ''
         # noinspection PyUnresolvedReferences
         for name, value in self.directives.items():
-            if name in regex_directives:
-                if '/' in value:
-                    directives += f'@@{name} :: ?"{value}"\n'
-                else:
-                    directives += f'@@{name} :: /{value}/\n'
+            if name == 'whitespace' and not value:
+                # NOTE: '' is how `@@whitespace :: None` is kept
+                directives += f'@@{name} :: None\n'
+            elif name in regex_directives:
+                from .pattern import regex_repr
+
+                directives += f'@@{name} :: {regex_repr(value)}\n'
             elif name in string_directives:
                 directives += f'@@{name} :: {value!r}\n'
             else:
